@@ -69,7 +69,7 @@ def parse_amex(filepath, rules):
     """
     transactions = []
 
-    with open(filepath, 'r', encoding='utf-8') as f:
+    with open(filepath, 'r', encoding='utf-8-sig') as f:
         reader = csv.DictReader(f)
         for row in reader:
             try:
@@ -110,7 +110,7 @@ def parse_boa(filepath, rules):
     """
     transactions = []
 
-    with open(filepath, 'r', encoding='utf-8') as f:
+    with open(filepath, 'r', encoding='utf-8-sig') as f:
         for line in f:
             # Format: MM/DD/YYYY  Description  Amount  Balance
             match = re.match(
@@ -164,7 +164,7 @@ def _iter_rows_with_delimiter(filepath, delimiter, has_header):
     Yields:
         List of column values for each row
     """
-    with open(filepath, 'r', encoding='utf-8') as f:
+    with open(filepath, 'r', encoding='utf-8-sig') as f:
         if delimiter and delimiter == 'tab':
             delimiter = '\t'
         if delimiter and delimiter.startswith('regex:'):
@@ -364,7 +364,7 @@ def auto_detect_csv_format(filepath):
         header_lower = header.lower().strip()
         return any(p in header_lower for p in patterns)
 
-    with open(filepath, 'r', encoding='utf-8') as f:
+    with open(filepath, 'r', encoding='utf-8-sig') as f:
         reader = csv.reader(f)
         headers = next(reader, None)
 
